@@ -15,6 +15,8 @@ def spec(tier):
     ]
     obs += parts("J.payloads", "C09_positions.py", "opt_sweep", 8, 250 if q else 2500, path_timeout=120,
                  what="serialisability of real handler results: the C09 option-set sweep (all columns x 9 positional methods on 4 documents under 6 option sets incl. diagnostics disabled + code actions): every result must be JSON-serialisable - a non-serialisable result makes write_response raise outside handle()'s try block and stops the server")
+    obs += [XH("B.session", F, "session", 250 if q else 900, path_timeout=120,
+               what="a real session at the byte level: real LangServer.run behind the real JSONRPC2Connection/ReadWriter over byte buffers, real handlers incl. initialize (process pool replaced by an in-process stand-in), a second initialize request at any position, an unknown method whose name holds non-ASCII text, repeated requests, a notification, exit; read back by an independent byte-level frame reader: every frame decodes, every request id has exactly one response, in request order")]
     return dict(
         obligations=obs,
         functions=["LangServer.handle", "LangServer.run", "LangServer.serve_default", "LangServer.serve_exit",
